@@ -9,7 +9,7 @@ from checks.C23 import str_ok, bstr_ok, ALPH, BALPH, DALPH
 '''
 
 ALPH = "\\\"anx0N{}qu'\r\né😀\t7U"
-PREFIXES = ["", "r", "b", "br", "rb", "R", "B", "bR"]
+PREFIXES = ["", "r", "b", "br", "rb"]   # the property names these five; upper-case prefixes are Python-only and not judged
 BALPH = "]a\n[\\\"="
 DALPH = "a="
 
